@@ -4,7 +4,9 @@ C18 -- true singletons: at most one live instance per class between clears.
 
 from __future__ import annotations
 
+import gc
 import random
+import weakref
 
 from edgegraph.structure import Vertex, singleton
 
@@ -73,7 +75,24 @@ def make_classes():
     return {c.__name__: c for c in (FlatA, FlatB, Top, Mid, Leaf, Derived, SVert, EmptyReg, NoBool)}
 
 
-def run_history(ops):
+class _Ref:
+    """Model entry that does NOT keep the instance alive (the registry itself must)."""
+
+    def __init__(self, obj):
+        self.ident = id(obj)
+        try:
+            self.wr = weakref.ref(obj)
+        except TypeError:
+            self.wr = None
+            self.strong = obj
+
+    def is_same(self, obj):
+        return id(obj) == self.ident and (self.wr is None or self.wr() is obj)
+
+
+def run_history(ops, keep_refs=True):
+    if not keep_refs:
+        return run_history_norefs(ops)
     classes = make_classes()
     model = {}  # cname -> instance
     created = []
@@ -152,6 +171,55 @@ def run_history(ops):
     return found, repeats, clears, len(touched)
 
 
+def run_history_norefs(ops):
+    """
+    Same judgement, but the harness drops every returned instance immediately (as a caller doing `S(1); S(2).x`
+    would) and collects garbage: the singleton must stay alive on its own, __init__ must not run again.
+    """
+    classes = make_classes()
+    model = {}  # cname -> _Ref
+    found = []
+    repeats = clears = 0
+    touched = set()
+    for k, op in enumerate(ops):
+        kind = op["op"]
+        if kind == "new":
+            cname = op["c"]
+            touched.add(cname)
+            args, kwargs = ARGS[op["a"]], dict(KWARGS[op["k"]])
+            n0 = len(INIT_LOG)
+            res = oracles.outcome(classes[cname], *args, **kwargs)
+            if res[0] != "ok":
+                found.append((f"construct:raised:{res[1].__name__}:no_strong_refs", f"op #{k} {op}: constructor raised"))
+                break
+            ninit = len(INIT_LOG) - n0
+            if cname in model:
+                repeats += 1
+                same = model[cname].is_same(res[1])
+                res = None
+                if ninit or not same:
+                    found.append(("construct:singleton_not_kept_alive_by_registry",
+                                  f"op #{k} {op}: caller kept no reference to the first instance; constructing again ran "
+                                  f"__init__ {ninit}x / returned {'the same' if same else 'a different'} object"))
+                    break
+            else:
+                if ninit != 1:
+                    found.append(("construct:init_count_or_args:no_strong_refs", f"op #{k} {op}: __init__ ran {ninit}x"))
+                    break
+                model[cname] = _Ref(res[1])
+                res = None
+        elif kind == "clear":
+            clears += 1
+            singleton.clear_true_singleton(classes[op["c"]])
+            model.pop(op["c"], None)
+        else:
+            clears += 1
+            singleton.clear_true_singleton()
+            model.clear()
+        pass  # refcounting frees the dropped instance at once (no cycles in these classes)
+    return found, repeats, clears, len(touched)
+
+
 def gen_history(rng, nops):
     names = rng.sample(CLASS_NAMES, rng.randint(2, 4))
     if rng.random() < 0.6:
@@ -184,11 +252,13 @@ def prelude():
 def floors(ctx):
     q = ctx.tier == "quick"
     return {"evaluations": 5000 if q else 50000, "histories": 200 if q else 2000, "repeat_constructions": 1000,
-            "clears": 500, "histories_with_subclass_chain": 50, "histories_with_falsy_instances": 50}
+            "clears": 500, "histories_with_subclass_chain": 50, "histories_with_falsy_instances": 50, "histories_without_strong_refs": 100}
 
 
-def judge(ctx, ops):
-    found, repeats, clears, ntouched = run_history(ops)
+def judge(ctx, ops, keep_refs=True):
+    found, repeats, clears, ntouched = run_history(ops, keep_refs)
+    if not keep_refs:
+        ctx.count("histories_without_strong_refs")
     ctx.evaluated(len(ops))
     ctx.count("histories")
     ctx.count("repeat_constructions", repeats)
@@ -200,19 +270,19 @@ def judge(ctx, ops):
     if repeats and clears and ntouched >= 2:
         ctx.nontrivial(ops)
     if found and not ctx.should_shrink(found[0][0]):
-        ctx.violation(found[0][0], found[0][1], {"ops": ops})
+        ctx.violation(found[0][0], found[0][1], {"ops": ops, "keep_refs": keep_refs})
     elif found:
         mech = found[0][0]
 
         def fails(sub):
-            f = run_history(sub)[0]
+            f = run_history(sub, keep_refs)[0]
             return bool(f) and f[0][0] == mech
 
         small = ddmin(ops, fails)
-        f2 = run_history(small)[0]
+        f2 = run_history(small, keep_refs)[0]
         if not f2 or f2[0][0] != mech:
             small, f2 = ops, found
-        ctx.violation(mech, f2[0][1] + f"; history: {small}", {"ops": small})
+        ctx.violation(mech, f2[0][1] + f"; history: {small}", {"ops": small, "keep_refs": keep_refs})
 
 
 def run(ctx):
@@ -221,9 +291,10 @@ def run(ctx):
     for n, ops in enumerate(prelude()):
         if n % ctx.nshards == ctx.shard:
             judge(ctx, ops)
+            judge(ctx, ops, keep_refs=False)
     for n in range(12000 if quick else 40000):
         ops = gen_history(rng, rng.randint(20, 80))
-        judge(ctx, ops)
+        judge(ctx, ops, keep_refs=bool(n % 8))
         if n in (1, 70) and ctx.shard == 0:
             ctx.sample(ops[:20] + ["..."])
     singleton.clear_true_singleton()
@@ -232,6 +303,6 @@ def run(ctx):
 
 
 def replay(ctx, case):
-    judge(ctx, case["ops"])
+    judge(ctx, case["ops"], case.get("keep_refs", True))
     ctx.nontrivial("replay-a")
     ctx.nontrivial("replay-b")
